@@ -250,6 +250,35 @@ claim('C11',
       'Trusted: clang++ 14 JSON AST of the explicit instantiations, the C++ standard\'s semantics of std::mutex / '
       'unique_lock / unique_ptr, /verif/cxx/mock.')
 
+claim('C19',
+      'structural rules on the comment machinery over python ast (glyph/mode of the installed indentizer, per-line map '
+      'of the ALL branch, line splitting in TextBlock.append), ownership analysis of Comment.__str__, and a taint walk '
+      'over the E4 templates of the shell header/source and the support-file frame',
+      'Static rule set: cpp_gen.Comment unconditionally installs a `//` bullet indentizer in mode ALL; the ALL branch of '
+      'Indentizer.to_list is taken before any other and maps every line of the whole list to bullet prefix + line; the '
+      'prefix starts with the glyph; every string item is split with str.splitlines(); Comment.__str__ returns the '
+      'indented fresh deep copy and mutates nothing reachable from self; in the generated-file templates cfg.copyright, '
+      'cfg.creator_info, the support-file header text and the COPYRIGHT constant occur only inside Comment text, ending '
+      'their own line and followed by constant comment text, no condition outside a comment and no file name depends on '
+      'them, and every read of the two settings lies in a function covered by the templates. Character-level agreement '
+      'between str.splitlines() and the C++ compiler on what a line break is, is assumed (Python splits on a superset).',
+      'Trusted: python ast, E1/E2, E3c ownership summaries, the E4 template evaluator. Assumption: the TextBlock.lines '
+      'setter is given EOL-free strings (its documented contract).')
+
+claim('C20',
+      'sibling agreement on the E4 templates of cpp_gen (as_decl vs as_def of Function / Constructor / Destructor / Param '
+      'as text over self.* holes, every combination of the boolean conditions enumerated), token-level balance rules on '
+      'the Struct / Class / Namespace templates, guard-presence rules on __post_init__',
+      'Static rule set: declaration and definition render the same name hole, one repetition over self.params with the '
+      'same filter and source order, `<type> <name>` per parameter (declaration optionally with the default value), the '
+      'same cv qualifier and return type; prefix / explicit / override / `= initialisation` / default values never occur '
+      'in a definition; definitions are qualified `Scope::` (constructor / destructor always, function iff a scope is '
+      'set) and empty exactly when `initialization` is set; braces and parentheses balance in every variant, contents '
+      'sit between the braces, struct/class render `<keyword> <name> {` ... `};` with the right keyword, the namespace '
+      'closing comment repeats the opening identifiers; the __post_init__ validators the statement relies on exist. '
+      '"Any composition is accepted by a C++ compiler" quantifies over user-supplied strings and is NOT decided.',
+      'Trusted: python ast, the E4 template evaluator, TextBlock being layout-only (C17/C18).')
+
 _pending = 'check not built yet in this round (design in DESIGN.md section 3); will be claimed when its rules run clean'
 for _n in range(1, 21):
     _p = f'C{_n:02d}'
